@@ -393,9 +393,19 @@ def _wrong_password(right, variant, alt):
         q = right + right
     else:
         q = right + 'x'
-    if q == right:
+    if q == right or _kdf_equivalent(q, right):
         q = right + 'x'
     return q
+
+
+def _kdf_equivalent(a, b):
+    """pack/unpack derive the key with scrypt, i.e. PBKDF2-HMAC-SHA256 keyed by the password: HMAC pads a
+    key shorter than its 64-byte block with zero bytes, so two passwords of <= 64 encoded bytes that differ
+    only in trailing NUL characters ARE the same key for every HMAC-based KDF.  That is a property of the
+    primitive, not of lbry; such a pair is not "another password" for the purposes of the wrong-password
+    clauses (a first version of the oracle flagged unpack('x\\0'-truncated-to-'x') as a leak)."""
+    ea, eb = a.encode('utf-8', 'surrogatepass'), b.encode('utf-8', 'surrogatepass')
+    return len(ea) <= 64 and len(eb) <= 64 and ea.rstrip(b'\0') == eb.rstrip(b'\0')
 
 
 def _ref_padding_valid(password, raw):
